@@ -4,7 +4,7 @@ from props import C03
 
 PID = "C10"
 PROPS_FILE = "props/C10.v"
-COQ_HEADER = Y.HEADER
+COQ_HEADER = C03.COQ_HEADER
 SHARD = 1
 RULE = ("(a) superposition: placed scenes (plane, Gaussian, dipole, magnetic dipole sources; PML / periodic / PEC boundaries; field, phasor, energy, "
         "Poynting detectors; random initial fields) run once per source with unit amplitude, once with only the initial fields, and once combined "
